@@ -362,6 +362,13 @@ func (d *driver) runProgram(blocks []*block, cfg progCfg) {
 		d.dead = true
 		return
 	}
+	// every reader has closed its accessor and every evicted entry was closed: what is still open can
+	// only belong to entries that are in the caches now (an ODS and a Q4 descriptor each)
+	if fds := openFDs(w.dir); len(fds)-len(base) > 2*(cfg.C1+cfg.C2) {
+		d.rep.Violate("C08/files-not-released/more-descriptors-than-cache-entries",
+			fmt.Sprintf("%s: all accessors handed out are closed, the caches hold at most %d entries, but %d descriptors below the store directory are open, e.g. %s",
+				cfg.ID, cfg.C1+cfg.C2, len(fds)-len(base), short(fds[0])), map[string]any{"prog": cfg.ID, "fds": fds})
+	}
 	evs := rec.snapshot()
 	d.rep.Count("programs", 1)
 	d.rep.Count("events", int64(len(evs)))
@@ -922,6 +929,7 @@ func TestDriver(t *testing.T) {
 	d.scenarioHeldAccessor(blocks)
 	d.scenarioStaleServingCache(blocks)
 	d.scenarioRePutOverExisting(blocks)
+	d.scenarioSharedAccessor(blocks)
 
 	// seeded random programs (B1)
 	nprog := vh.EnvInt("VERIF_PROGRAMS", 60)
